@@ -995,6 +995,14 @@ func reachableFromWithout(from *ssa.BasicBlock, cut map[[2]*ssa.BasicBlock]bool,
 			}
 		}
 	}
+	// bool phis used as a condition (flag idiom: appended := false … appended = true … if !appended)
+	for _, b := range fn.Blocks {
+		if c, _ := condOf(b); c != nil {
+			if ph, ok := c.(*ssa.Phi); ok && isBool(ph.Type()) {
+				nilPhis[ph] = true
+			}
+		}
+	}
 	nilness := func(v ssa.Value) (bool, bool) { // (isNil, known)
 		switch x := v.(type) {
 		case *ssa.Const:
@@ -1073,6 +1081,20 @@ func reachableFromWithout(from *ssa.BasicBlock, cut map[[2]*ssa.BasicBlock]bool,
 								forced = 0
 							}
 						}
+					}
+				}
+			}
+		}
+		if ph, ok := c.(*ssa.Phi); ok && isBool(ph.Type()) {
+			if v, ok := pv[ph]; ok {
+				if k, ok := v.(*ssa.Const); ok && k.Value != nil && k.Value.Kind() == constant.Bool {
+					condTrue := constant.BoolVal(k.Value)
+					if neg {
+						condTrue = !condTrue
+					}
+					forced = 1
+					if condTrue {
+						forced = 0
 					}
 				}
 			}
